@@ -126,29 +126,23 @@ def pick(files, mutate, what):
 
 # ----------------------------------------------------------------------------- the check
 
-def mc_models(ctx):
+def mc_strings(ctx):
     ctx.tlc_mc("MC_Strings", workers=4, note="definitions of Strings.tla over all byte strings over {0x00,'a',0xff} up to length 3: "
                "executable = definitional forms, Cmp total order by unsigned byte, find/slice/join/split laws")
     ctx.tlc_mc("MC_Strings", cfg="MC_Strings_order4.cfg", workers=4, note="Cmp total order / find on all strings up to length 4 (121 strings, all triples)")
     ctx.tlc_mc("MC_Strings", cfg="MC_Strings_text.cfg", workers=4, note="line / word / case definitions over {LF,CR,SP,'A','a','_'} up to length 4")
-    ctx.tlc_mc("MC_NumericCmp", workers=6, timeout=1500,
-               note="NumericCmp over ALL strings over {-,0,1,9,.} up to length 4: classification, total preorder on all triples of the "
-                    "333 valid reals, agreement with scaled integer arithmetic, equal values written differently")
     ctx.tlc_mc("MC_LexIter", workers=4, required_actions=("DoNext", "DoPrev", "DoSeek"),
                note="cursor contract: every sorted sequence (duplicates, empty strings) up to 4 elements: visit-exactly-once, bounds")
 
 
-def run(ctx):
-    ctx.build(BIN)
-    with cf.ThreadPoolExecutor(max_workers=1) as ex:
-        fut = ex.submit(mc_models, ctx)        # the bounded models run beside the conformance run
-        s = ctx.harness(BIN, "drive", "b1")
-        files = sorted(glob.glob(os.path.join(s["_out"], "*.ndjson")))
-        if not files:
-            raise vlib.ToolError("c20 produced no trace")
-        ctx.validate(TRACE, files, what="string function answers vs TLA+ definitions", timeout=900)
-        fut.result()
-    # --- binding self-tests: corrupted answers must be rejected
+def mc_numeric(ctx):
+    ctx.tlc_mc("MC_NumericCmp", workers=6, timeout=1500,
+               note="NumericCmp over ALL strings over {-,0,1,9,.} up to length 4: classification, total preorder on all triples of the "
+                    "333 valid reals, agreement with scaled integer arithmetic, equal values written differently")
+
+
+def selftests(ctx, files):
+    """binding self-tests: corrupted answers must be rejected"""
     for mutate, what in ((corrupt_cmp_cell, "one entry of a FastStr comparison matrix flipped"),
                          (corrupt_skip_element, "one element skipped in a forward cursor scan (a next() cut out)"),
                          (corrupt_hash, "hash of one differently aligned copy changed"),
@@ -166,6 +160,24 @@ def run(ctx):
                 raise vlib.ToolError("numeric self-test: the uncorrupted canonical sub-matrix was not accepted: %s" % r)
             break
     ctx.selftest_corrupt(TRACE, nf, corrupt_numeric_cell, "one entry of a realnum_strcmp matrix (canonical numbers) flipped")
+
+
+def run(ctx):
+    ctx.build(BIN)
+    with cf.ThreadPoolExecutor(max_workers=2) as ex:
+        # the bounded models run beside the conformance run
+        futs = [ex.submit(mc_numeric, ctx), ex.submit(mc_strings, ctx)]
+        s = ctx.harness(BIN, "drive", "b1")
+        files = sorted(glob.glob(os.path.join(s["_out"], "*.ndjson")))
+        if not files:
+            raise vlib.ToolError("c20 produced no trace")
+        ctx.validate(TRACE, files, what="string function answers vs TLA+ definitions", timeout=900)
+        selftests(ctx, files)
+        for f in futs:
+            f.result()
+    # the two model-checking threads both add to these sums: recompute them from the per-model entries
+    ctx.cov["states"] = sum(m.get("distinct_states", 0) for m in ctx.cov["models"])
+    ctx.cov["transitions"] = sum(m.get("states_generated", 0) for m in ctx.cov["models"])
     # --- evidence
     cov = ctx.cov
     cov["evaluations"] = s.get("evaluations", 0)
